@@ -114,8 +114,8 @@ func c11Gen(rng *rand.Rand, tier string, w *bufio.Writer) {
 					live[t] = pts
 				}
 			case r < 40:
-				for t, left := range live {
-					if left > 0 {
+				for _, t := range names {
+					if left := live[t]; left > 0 {
 						fmt.Fprintf(w, "go %s\n", t)
 						live[t] = left - 1
 						break
@@ -133,8 +133,8 @@ func c11Gen(rng *rand.Rand, tier string, w *bufio.Writer) {
 				fmt.Fprintln(w, "state")
 			}
 		}
-		for t, left := range live {
-			for ; left > 0; left-- {
+		for _, t := range names {
+			for left := live[t]; left > 0; left-- {
 				fmt.Fprintf(w, "go %s\n", t)
 			}
 		}
